@@ -124,34 +124,6 @@ fn from_json_any_depth<T: serde::de::DeserializeOwned>(json: &str) -> serde_json
     Ok(value)
 }
 
-/// The environment a dependent is checked against: the exported definitions plus the trait
-/// bounds of the generic functions, which the interface records by the names written in the
-/// package (`Show` in package `Lib` is `Lib::Show` for a dependent).
-fn dep_env_with_bounds(unit: &InterfaceUnit) -> crate::env::GlobalTypeEnv {
-    let mut env = unit.exports.to_genv();
-    let qualify = |trait_name: &str| -> String {
-        if trait_name.contains("::") || unit.package == "Main" || unit.package == "Builtin" {
-            trait_name.to_string()
-        } else {
-            format!("{}::{}", unit.package, trait_name)
-        }
-    };
-    for (function, bounds) in unit.hir_interface.fn_bounds.iter() {
-        // methods of impls are recorded as `impl#<n>::name`: only functions are called by name
-        if function.starts_with("impl#") {
-            continue;
-        }
-        env.fn_bounds.insert(
-            function.clone(),
-            bounds
-                .iter()
-                .map(|(param, traits)| (param.clone(), traits.iter().map(|t| qualify(t)).collect()))
-                .collect(),
-        );
-    }
-    env
-}
-
 /// The names as they are written in their own package (`Lib::Time` -> `Time`).
 fn bare_names<'a>(names: impl Iterator<Item = &'a String>) -> Vec<String> {
     names
@@ -268,7 +240,7 @@ pub fn check_package(opts: PackageInputs) -> Result<InterfaceUnit, CompilationEr
             continue;
         }
         let unit = load_interface_from_paths(&dep, &opts.interface_paths)?;
-        deps_envs.insert(dep.clone(), dep_env_with_bounds(&unit));
+        deps_envs.insert(dep.clone(), unit.exports.to_dep_env(&unit.package, &unit.hir_interface));
         deps_interfaces.insert(dep.clone(), unit.hir_interface.clone());
         dep_hashes.insert(dep, unit.interface_hash.clone());
     }
@@ -303,7 +275,7 @@ pub fn build_package(opts: PackageInputs) -> Result<CoreUnit, CompilationError> 
             continue;
         }
         let unit = load_interface_from_paths(&dep, &opts.interface_paths)?;
-        deps_envs.insert(dep.clone(), dep_env_with_bounds(&unit));
+        deps_envs.insert(dep.clone(), unit.exports.to_dep_env(&unit.package, &unit.hir_interface));
         deps_interfaces.insert(dep.clone(), unit.hir_interface.clone());
         dep_hashes.insert(dep.clone(), unit.interface_hash.clone());
         dep_units.push(unit);
